@@ -10,7 +10,6 @@ import (
 	"context"
 	"errors"
 	"fmt"
-	"io"
 	"log"
 	"net"
 	"sort"
@@ -23,7 +22,7 @@ import (
 )
 
 const (
-	opConnect          = 0 // arg 1: the accept callback (if set) rejects it
+	opConnect          = 0 // arg bit 0: the accept callback (if set) rejects it; bit 1 (also for 13, 14): the connection's Close returns an error
 	opSend             = 1 // arg: handler mode
 	opRelease          = 2
 	opDisconnect       = 3
@@ -123,7 +122,7 @@ func (h lcHandler) Handle(ctx context.Context, received packet.Request) (packet.
 		r.w.conns[id].errsExpected++
 		r.w.logLocked(lcEvent{code: evHandlerEnd, c: id})
 		r.w.mu.Unlock()
-		panic(memErr{id, "handler panic"})
+		panic(memErr{r.w.id, id, "handler panic"})
 	case hBlock:
 		<-ch
 	case hBlockPanic:
@@ -132,7 +131,7 @@ func (h lcHandler) Handle(ctx context.Context, received packet.Request) (packet.
 		r.w.conns[id].errsExpected++
 		r.w.logLocked(lcEvent{code: evHandlerEnd, c: id})
 		r.w.mu.Unlock()
-		panic(memErr{id, "handler panic"})
+		panic(memErr{r.w.id, id, "handler panic"})
 	case hSleep:
 		time.Sleep(15 * time.Millisecond)
 	}
@@ -408,7 +407,7 @@ func (r *lcRun) awaitGone(cl *lcClient) {
 	c := cl.conn
 	r.w.waitFor("conn gone", func() bool {
 		return c.ownCloses >= 1 && (!r.onClose() || r.w.countLocked(evCloseCb, c.id) >= 1) &&
-			(r.cfg&2 == 0 || c.errsSeen >= c.errsExpected)
+			c.errsSeen >= c.errsExpected
 	})
 	r.w.mu.Lock()
 	c.clTakeFramesLocked()
@@ -490,13 +489,15 @@ func (r *lcRun) step(o lcOp) {
 		if cl.state != 0 {
 			return
 		}
-		rej := o.op == opConnect && o.arg == 1 && r.onAccept()
+		rej := o.op == opConnect && o.arg&1 == 1 && r.onAccept()
+		closeErr := o.arg&2 != 0
 		holdCall := 1
 		if r.onAccept() {
 			holdCall = 2
 		}
 		c, ok := r.lis.dial(func(c *lcMemConn) {
 			c.rejectMe = rej
+			c.closeErr = closeErr
 			switch o.op {
 			case opConnectCancel:
 				if r.onAccept() {
@@ -925,7 +926,7 @@ func canonLog(evs []lcEvent) []lcEvent {
 	flush := func(seg []lcEvent) {
 		ok := true
 		for _, e := range seg {
-			if e.code == evAccept || e.code == evAcceptCb || e.code == evServeCb || e.code == evErrCb {
+			if e.code == evAccept || e.code == evAcceptCb || e.code == evServeCb || e.code == evErrCb || e.code == evDefLog {
 				ok = false
 			}
 		}
@@ -996,6 +997,11 @@ func lcFixedScripts() [][]lcOp {
 		{{opBurst, 6, 2}, {opShutdown, 0, 0}, {opConnectRefused, 6, 0}},
 		// Shutdown after cancel
 		{{opConnect, 0, 0}, {opCancel, 0, 0}, {opShutdown, 0, 0}},
+		// a first Shutdown gives up (short context) while a handler is in flight, the caller retries
+		{{opConnect, 0, 0}, {opConnect, 1, 0}, {opSend, 1, hBlock}, {opShutdownShortCtx, 0, 0}, {opShutdownAsync, 0, 0}, {opRelease, 0, 0}, {opAwaitShutdown, 0, 0}},
+		// Close() returning an error: rejected connection, goroutine cleanup, serve's drop paths
+		{{opConnect, 0, 3}, {opConnect, 1, 2}, {opSend, 1, hNormal}, {opDisconnect, 1, 0}, {opConnect, 2, 2}, {opConnectHeld, 3, 2}, {opShutdown, 0, 0}, {opUnhold, 0, 0}},
+		{{opConnect, 0, 2}, {opConnect, 1, 3}, {opConnectCancel, 2, 2}},
 		// a handler in flight when Shutdown is called, and the connection then ends while still in state
 		// handling: the handler panics / the reply write fails because the client has gone
 		{{opConnect, 0, 0}, {opSend, 0, hBlockPanic}, {opShutdownAsync, 0, 0}, {opRelease, 0, 0}, {opAwaitShutdown, 0, 0}},
@@ -1047,6 +1053,9 @@ func lcRandomScript(g *rng) []lcOp {
 			if g.intn(4) == 0 {
 				rej = 1
 			}
+			if g.intn(4) == 0 {
+				rej |= 2
+			}
 			s = append(s, lcOp{opConnect, next, rej})
 			next++
 		case 3, 4:
@@ -1080,7 +1089,8 @@ func lcRandomScript(g *rng) []lcOp {
 func init() {
 	streams["lifecycle"] = func(seed uint64, thorough bool) {
 		g := newRng(seed ^ 0x17c17)
-		log.SetOutput(io.Discard) // the server's default onErrorFunc logs through the standard logger
+		log.SetOutput(lcLogWriter{}) // the server's default onErrorFunc logs through the standard logger
+		log.SetFlags(0)
 		type job struct {
 			cfg    int
 			script []lcOp
